@@ -7,6 +7,7 @@ from sx import core, hooks, harness as H
 from sx.vals import ZStr
 from checks import stanza_common as SC, stack_common as ST
 
+DEFAULT_TIMEOUT_S = 40          # a case of this check takes about a second; a tree on which it takes longer than this is not explored further
 PROPERTY = "C07"
 LEVEL = "model_checking"
 CODE = ["yowsup/layers/protocol_notifications/layer.py:recvNotification", "yowsup/layers/axolotl/layer_control.py:receive/on*EncryptNotification",
